@@ -28,6 +28,9 @@ def post(nmfu, c, prog, flags):
 def main():
     sel = lambda c: c.startswith("CaseNode._merge") and ("C08" in c or c == "CaseNode._merge" or "C01" in c)
     rep, outs = R.run_contracts("C08", sel, ["CaseNode._merge"], ["dfa", "merge"], "case", TEXT, ["CaseNode._merge", "CaseNode.convert", "DFA.append_after (clause bodies)"], post=post)
+    # which clause owns a merged state / when the merge is refused: discharged from the real AST for all priorities (pyvc + z3)
+    from . import merge_proofs
+    merge_proofs.run(rep, "C08")
     nref = steps = 0
     srcs = None
     for o in outs:
@@ -49,7 +52,8 @@ def main():
     rep.bounded_count("product-state x byte comparisons", steps)
     if nref == 0:
         rep.undecided_ob("C08/vacuity/ref", "no case statement compared with the reference")
-    return R.finish(rep, TEXT, "C08")
+    return R.finish(rep, TEXT + " Proved (pyvc on the real AST of CaseNode._merge.create_real_state_of; merged states of up to 3 clauses, every acceptance pattern, symbolic priorities): the clause that owns a merged state of a greedy case "
+                    "has the strictly highest priority among the finishing clauses (z3), a single finisher owns its state, nobody owns a state in which nothing finishes, and ambiguous merges are refused.", "C08")
 
 
 def replay(path):
